@@ -403,25 +403,30 @@ def _missing_objects(gpath):
         store = repo.object_store
         seen = set()
         missing = []
-        stack = [(sha, "ref " + name.decode("utf-8", "replace"))
+        stack = [(sha, "commit", "ref " + name.decode("utf-8", "replace"))
                  for name, sha in sorted(repo.get_refs().items())]
         while stack:
-            sha, frm = stack.pop()
+            sha, kind, frm = stack.pop()
             if sha in seen:
                 continue
             seen.add(sha)
             if sha not in store:
-                missing.append([sha.decode("ascii"), frm])
+                missing.append([kind, sha.decode("ascii"), frm])
                 continue
             o = store[sha]
             if o.type_name == b"commit":
-                stack.append((o.tree, "commit " + sha.decode("ascii")))
+                stack.append((o.tree, "root-tree",
+                              "commit " + sha.decode("ascii")))
                 for p in o.parents:
-                    stack.append((p, "commit " + sha.decode("ascii")))
+                    stack.append((p, "commit", "commit " + sha.decode("ascii")))
             elif o.type_name == b"tree":
                 for e in o.items():
-                    if e.mode != 0o160000:
-                        stack.append((e.sha, "tree " + sha.decode("ascii")))
+                    if e.mode == 0o040000:
+                        stack.append((e.sha, "subtree",
+                                      "tree " + sha.decode("ascii")))
+                    elif e.mode != 0o160000:
+                        stack.append((e.sha, "blob",
+                                      "tree " + sha.decode("ascii")))
         return missing
     finally:
         repo.close()
@@ -451,9 +456,14 @@ def run_push_back(case, env):
     res = src.push(gbranch, lossy=True)
     missing = _missing_objects(gpath)
     if missing:
-        return violation(
-            "C35/lossy-push-leaves-git-repository-with-missing-tree",
-            [missing[:5]], label=None)
+        kinds_ = sorted(set(m[0] for m in missing))
+        if kinds_ == ["subtree"]:
+            # the open finding: a moved directory's tree was never sent
+            sig = "C35/lossy-push-leaves-git-repository-with-missing-tree"
+        else:
+            sig = ("C35/lossy-push-leaves-git-repository-with-missing-" +
+                   "-and-".join(kinds_))
+        return violation(sig, [missing[:5]], label=None)
     back = controldir.ControlDir.create_branch_convenience(
         os.path.join(root, "back"), format=bz.fmt("2a"), force_new_tree=False)
     back.pull(_mod_branch.Branch.open(gpath))
